@@ -115,6 +115,9 @@ func genC15(cs *CaseSet, rng *Rng, tier string, dir string) {
 		for _, i := range rng.Perm(len(pool))[:2+rng.Intn(3)] {
 			logins = append(logins, pool[i])
 		}
+		if h%4 == 1 { // twins that differ only by a leading dot: their files are "ops.yaml" and ".ops.yaml"
+			logins = [][]byte{[]byte("guest"), []byte("ops"), []byte(".ops"), pool[rng.Intn(4)]}
+		}
 		pws := [][]byte{{}, []byte("pw1"), rng.Bytes(1 + rng.Intn(20)), {0}}
 		var ops []Op
 		var obs [][][]byte
